@@ -283,9 +283,8 @@ Conversion<Unit::TemperatureGradient, Unit::TemperatureGradient::FahrenheitPerIn
 }
 
 template <typename NumericType>
-inline const std::
-    map<Unit::TemperatureGradient, std::function<void(NumericType* values, const std::size_t size)>>
-        MapOfConversionsFromStandard<Unit::TemperatureGradient, NumericType>{
+inline const ConversionTable<Unit::TemperatureGradient, NumericType>
+    MapOfConversionsFromStandard<Unit::TemperatureGradient, NumericType>{
           {Unit::TemperatureGradient::KelvinPerMetre,
            Conversions<Unit::TemperatureGradient, Unit::TemperatureGradient::KelvinPerMetre>::
                FromStandard<NumericType>},
@@ -313,8 +312,7 @@ inline const std::
 };
 
 template <typename NumericType>
-inline const std::map<Unit::TemperatureGradient,
-                      std::function<void(NumericType* const values, const std::size_t size)>>
+inline const ConversionTable<Unit::TemperatureGradient, NumericType>
     MapOfConversionsToStandard<Unit::TemperatureGradient, NumericType>{
       {Unit::TemperatureGradient::KelvinPerMetre,
        Conversions<Unit::TemperatureGradient, Unit::TemperatureGradient::KelvinPerMetre>::
